@@ -1,6 +1,11 @@
 #!/bin/bash
-# re-evaluates every seed under /tmp/seed/out (8 at a time); results in /verif/.work/seedlogs and /verif/seeded/<id>/meta.json
+# re-evaluate every seeded change under /tmp/seed/out (or the ids given) against the current checks; 5 at a time
+# ALSO: changes that break a neighbouring property's check as well / instead (see DESIGN.md 5.4)
 cd /verif
 mkdir -p .work/seedlogs
-ls -d /tmp/seed/out/C*[ab] | xargs -n1 basename | xargs -P 8 -I{} sh -c 'tools/eval_seed.py /tmp/seed/out/{} > .work/seedlogs/{}.log 2>&1'
-tools/seedsummary.py > .work/seed_summary.txt
+declare -A ALSO=( [C03d]=C14 [C05d]=C04 [C08d]=C07 [C14c]=C03 )
+ids="$@"
+[ -z "$ids" ] && ids=$(ls -d /tmp/seed/out/C??? | xargs -n1 basename)
+for s in $ids; do
+  if [ -n "${ALSO[$s]}" ]; then echo "$s --also ${ALSO[$s]}"; else echo "$s"; fi
+done | xargs -P 5 -L 1 sh -c 'id=$0; shift 0; tools/eval_seed.py /tmp/seed/out/$id "$@" > .work/seedlogs/$id.log 2>&1'
